@@ -41,7 +41,7 @@ ASSUMES = ['data are integers or dyadic rationals with few bits: group sums, dif
            'a relabelling of subjects is read off the recorded draw: rng.permutation(nx+ny) (first nx indices form group 1) or, '
            'paired, sign(0.5 - rng.rand(1,nx)) (pairs with -1 are exchanged)',
            'nbs_parallel.nbs_bct (outside the property\'s anchors, same statistic code duplicated) is tied by harness only: same adj as '
-           'bct.nbs_bct, null values = model / oracle on the draws RandomState(perm_seed[u]) produces; its p-values are a known finding']
+           'bct.nbs_bct, null values and p-values = model / oracle on the draws RandomState(perm_seed[u]) produces']
 TRUSTED = ['C19_t_gt_thresh_unpaired / C19_t_gt_thresh_paired (the square-root-free decision equals `thresh < t` with a real '
            'square root) depend on the standard-library axioms of Coq\'s real numbers (ClassicalDedekindReals.sig_not_dec, '
            'sig_forall_dec, FunctionalExtensionality.functional_extensionality_dep); every other C19 theorem is closed under '
@@ -746,7 +746,7 @@ def run(ctx):
                         break
             if good and not pnear:
                 lines.append(model_line(x, y, thr, tail, paired, [] if paired else pdraws, pdraws if paired else []))
-                pend.append((pcase, None, padj, pnull, 0, 'nbs_parallel.nbs_bct'))
+                pend.append((pcase, ppv, padj, pnull, 0, 'nbs_parallel.nbs_bct'))
     for kk, v in STAT.items():
         ctx.count(kk, v)
 
